@@ -226,12 +226,15 @@ fn asn1_case(ctx: &mut Ctx, d: &BigUint, msg: &[u8], k: &BigUint, compressed: bo
             return;
         }
     };
+    // reference components for this k (None = the standard's all-zero-KDF retry condition: nothing to compare)
+    let Some(raw) = r2::encrypt(&pk, msg, k, Order::C1C3C2, false) else {
+        ctx.class("ref_retry_condition");
+        return;
+    };
     if seen.accepted.last() != Some(k) {
         ctx.violation("encrypt_asn1:injected-valid-k-not-used", w);
         return;
     }
-    // reference components for this k
-    let raw = r2::encrypt(&pk, msg, k, Order::C1C3C2, false).unwrap();
     let (x, y, c3, c2) = (&raw[1..33], &raw[33..65], &raw[65..97], &raw[97..]);
     let want = der::sm2cipher_encode(x, y, c3, c2);
     if doc != want {
